@@ -5,3 +5,4 @@ import RoaringModel.Store
 import RoaringModel.Bitmap
 import RoaringModel.Ser
 import RoaringModel.Spec
+import RoaringModel.Inv
